@@ -44,28 +44,28 @@ pub open spec fn configured_type(c: ScalarTypeConfig, t: TypeTarget) -> Seq<char
 //@ extract crates/config-file/src/type_target.rs :: impl TypeTarget
 //@   fn as_str
 //@   ret r
-//@   ensures [C09.scalarcfg.target.as_str] r@ == (match *self { TypeTarget::OperationInput => "__OperationInput"@, TypeTarget::OperationOutput => "__OperationOutput"@, TypeTarget::ResolverInput => "__ResolverInput"@, TypeTarget::ResolverOutput => "__ResolverOutput"@ })
+//@   ensures [C09+C02.scalarcfg.target.as_str] r@ == (match *self { TypeTarget::OperationInput => "__OperationInput"@, TypeTarget::OperationOutput => "__OperationOutput"@, TypeTarget::ResolverInput => "__ResolverInput"@, TypeTarget::ResolverOutput => "__ResolverOutput"@ })
 //@   fn is_output
 //@   ret r
-//@   ensures [C09.scalarcfg.target.is_output] r == (*self is OperationOutput || *self is ResolverOutput)
+//@   ensures [C09+C02.scalarcfg.target.is_output] r == (*self is OperationOutput || *self is ResolverOutput)
 //@   fn is_input
 //@   ret r
-//@   ensures [C09.scalarcfg.target.is_input] r == (*self is OperationInput || *self is ResolverInput)
+//@   ensures [C09+C02.scalarcfg.target.is_input] r == (*self is OperationInput || *self is ResolverInput)
 //@ end
 
 //@ extract crates/config-file/src/scalar_type.rs :: impl ScalarTypeConfig
 //@   fn get_type
 //@   ret r
-//@   ensures [C09.scalarcfg.get_type] r@ == configured_type(*self, target)
+//@   ensures [C09+C02.scalarcfg.get_type] r@ == configured_type(*self, target)
 //@   fn type_names
 //@   attr #[verifier::external_body]
 //@   fn separate_ref
 //@   ret r
-//@   ensures [C09.scalarcfg.separate_ref] r.operation_input@ == configured_type(*self, TypeTarget::OperationInput) && r.operation_output@ == configured_type(*self, TypeTarget::OperationOutput) && r.resolver_input@ == configured_type(*self, TypeTarget::ResolverInput) && r.resolver_output@ == configured_type(*self, TypeTarget::ResolverOutput)
+//@   ensures [C09+C02.scalarcfg.separate_ref] r.operation_input@ == configured_type(*self, TypeTarget::OperationInput) && r.operation_output@ == configured_type(*self, TypeTarget::OperationOutput) && r.resolver_input@ == configured_type(*self, TypeTarget::ResolverInput) && r.resolver_output@ == configured_type(*self, TypeTarget::ResolverOutput)
 //@ end
 
 /// the distinct target names are pairwise different (namespaces cannot collide)
-//@ lemma [C09.scalarcfg.target.names_distinct] lemma_names_distinct
+//@ lemma [C09+C02.scalarcfg.target.names_distinct] lemma_names_distinct
 pub proof fn lemma_names_distinct()
     ensures
         "__OperationInput"@ != "__OperationOutput"@, "__OperationInput"@ != "__ResolverInput"@,
